@@ -1,4 +1,6 @@
 import PegVerif.Proofs.AllOptionsDef
+import PegVerif.Proofs.FastCheck
+import PegVerif.Proofs.Kacts
 import PegVerif.Props.C01
 import PegVerif.Props.C02
 import PegVerif.Props.C02Switch
@@ -20,16 +22,29 @@ import PegVerif.Props.C12
       i     Props/C02.lean              GrammarOKI G
       s     Props/C02Switch.lean        switchSafe G G'
       is    Props/C02InlineSwitch.lean  inlineSwitchSafe G G'
-      n     Props/C07.lean              GrammarOKN (Kall G) G
-      in    Props/C07Inline.lean        inlineNoastSafe G
-      sn    Props/C07Switch.lean        noastSwitchSafe G G'
-      isn   Props/C07Inline.lean        inlineNoastSwitchSafe G G'
+      n     Props/C07.lean              GrammarOKN (Kacts G) G
+      in    Props/C07Inline.lean        inlineNoastSafeK (Kacts G) G
+      sn    Props/C07Switch.lean        noastSwitchSafeK (Kacts G') G G'
+      isn   Props/C07Inline.lean        inlineNoastSwitchSafeK (Kacts G') G G'
+
+  `theoremApplies` EVALUATES cheap versions of `GrammarOK`, `GrammarOKI`, `switchSafe`,
+  `inlineSwitchSafe`, `noastSwitchSafeK` (`Proofs/FastCheckDef.lean`: the reachability closure, the
+  reference counts and the table of the rules that get a function are computed once and shared by
+  all rules), proved EQUAL to the checkers of the table in `Proofs/FastCheck.lean`.
+
+  The `-noast` rows use the kit `Kacts` (`Proofs/KactsDef.lean`: of the machine's trace, the entries
+  of actions are compared and the entries of state-change statements are not), so grammars WITH
+  state-change statements are covered — the summary theorems speak about verdict, position and (in
+  AST mode) tokens, for which the refinement theorems hold with any kit.  A statement whose code
+  coincides with the code of an action is rejected.  The `Kall` instances `GrammarOKN (Kall G) G`,
+  `inlineNoastSafe`, `noastSwitchSafe`, `inlineNoastSwitchSafe` (no statement at all) imply the rows
+  above (`Proofs/Kacts.lean`).
 
   * `option_parser_spec`        every option set against the PEG semantics of `G` (one shape);
   * `all_options_same_verdict`  every option set against the default parser;
   * `all_options_run_exists`    termination;
   * non-vacuity: one grammar for which `theoremApplies` holds for all eight option sets, with the
-    output of the modelled optimiser as `G'`.
+    output of the modelled optimiser as `G'`; and one WITH STATE-CHANGE STATEMENTS (`Gstmt`).
 
   Nothing is proved anew about the emission: each case is the end-to-end theorem (or the `World`
   lemma and refinement theorem behind it) of the file named in the table.
@@ -55,8 +70,55 @@ theorem theoremApplies_dflt {o : Opts} {G G' : Grammar} (h : theoremApplies o G 
 
 theorem defaultParserOK_iff {G : Grammar} (h : defaultParserOK G = true) :
     WFB G = true ∧ GrammarOK G = true ∧ LinkedOK G = true ∧ G.plain := by
-  simp only [defaultParserOK, Bool.and_eq_true] at h
+  simp only [defaultParserOK, GrammarOKfast_eq, Bool.and_eq_true] at h
   exact ⟨h.1.1.1, h.1.1.2, h.1.2, Grammar.plain_of_all h.2⟩
+
+/-- `defaultParserOK` in terms of the checker the theorems of `Props/C01.lean` are stated with. -/
+theorem defaultParserOK_eq (G : Grammar) :
+    defaultParserOK G = (WFB G && GrammarOK G && LinkedOK G && G.rules.all (fun r => r.body.plain)) := by
+  simp only [defaultParserOK, GrammarOKfast_eq]
+
+/-- **The table of the header is what `optionSetOK` computes**: the cheap checkers it evaluates are
+    equal to the side conditions the per-option theorems are stated with. -/
+theorem optionSetOK_eq (o : Opts) (G G' : Grammar) :
+    optionSetOK o G G' =
+      match o.inline, o.switch, o.ast with
+      | false, false, true  => true
+      | true,  false, true  => GrammarOKI G
+      | false, true,  true  => switchSafe G G'
+      | true,  true,  true  => inlineSwitchSafe G G'
+      | false, false, false => GrammarOKN (Kacts G) G
+      | true,  false, false => inlineNoastSafeK (Kacts G) G
+      | false, true,  false => noastSwitchSafeK (Kacts G') G G'
+      | true,  true,  false => inlineNoastSwitchSafeK (Kacts G') G G' := by
+  obtain ⟨i, s, a⟩ := o
+  cases i <;> cases s <;> cases a <;>
+    simp only [optionSetOK, GrammarOKIfast_eq, switchSafeFast_eq, inlineSwitchSafeFast_eq, noastSafeA,
+      inlineNoastSafeA, noastSwitchSafeA, noastSwitchSafeKfast_eq, inlineNoastSwitchSafeA]
+
+/-- Nothing is lost with respect to the `Kall` instances (no state-change statement at all) that
+    `optionSetOK` was defined with before. -/
+theorem optionSetOK_of_Kall (o : Opts) (G G' : Grammar)
+    (h : (match o.inline, o.switch, o.ast with
+      | false, false, true  => true
+      | true,  false, true  => GrammarOKI G
+      | false, true,  true  => switchSafe G G'
+      | true,  true,  true  => inlineSwitchSafe G G'
+      | false, false, false => GrammarOKN (Kall G) G
+      | true,  false, false => inlineNoastSafe G
+      | false, true,  false => noastSwitchSafe G G'
+      | true,  true,  false => inlineNoastSwitchSafe G G') = true) :
+    optionSetOK o G G' = true := by
+  obtain ⟨i, s, a⟩ := o
+  cases i <;> cases s <;> cases a <;> simp only at h <;>
+    simp only [optionSetOK, GrammarOKIfast_eq, switchSafeFast_eq, inlineSwitchSafeFast_eq]
+  · exact noastSafeA_of_Kall h
+  · exact noastSwitchSafeA_of_Kall h
+  · exact h
+  · exact inlineNoastSafeA_of_Kall h
+  · exact h
+  · exact inlineNoastSwitchSafeA_of_Kall h
+  · exact h
 
 /-- `allOpts` lists every option set. -/
 theorem mem_allOpts (o : Opts) : o ∈ allOpts := by
@@ -180,12 +242,12 @@ theorem spec_is (hd : defaultParserOK G = true) (hS : inlineSwitchSafe G G' = tr
   intro t out t' ht hrun
   rw [hast]; exact runSpec_of_match (hall t out t' ht hrun)
 
-/-- n (`Props/C07.lean`). -/
-theorem spec_n (hd : defaultParserOK G = true) (hN : GrammarOKN (Kall G) G = true)
+/-- n (`Props/C07.lean`), for any kit. -/
+theorem spec_n (K : NKit) (hd : defaultParserOK G = true) (hN : GrammarOKN K G = true)
     (hinl : o.inline = false) (hsw : o.switch = false) (hast : o.ast = false) (hcfg : cfg.ast = false)
     (hfind : (compileAll o G).find n = some cr) : ParserSpec o G G cfg inp n cr := by
   obtain ⟨hwf, hG, _, hplain⟩ := defaultParserOK_iff hd
-  have hW := compileAll_worldN (K := Kall G) (cfg := cfg) (inp := inp) hsw hinl hast hcfg hinp hG hN
+  have hW := compileAll_worldN (K := K) (cfg := cfg) (inp := inp) hsw hinl hast hcfg hinp hG hN
     (fun _ h => alwaysSucceeds_sound hplain h)
   obtain ⟨_, b, _, _, hb, _⟩ := hW.rules n cr hfind
   obtain ⟨res, evs, hev⟩ := Eval_total (ρ := cfg.rho) hwf inp n b hb 0 (Nat.zero_le _)
@@ -193,43 +255,49 @@ theorem spec_n (hd : defaultParserOK G = true) (hN : GrammarOKN (Kall G) G = tru
   intro t out t' ht hrun
   rw [hast]; exact runSpec_of_verdict (C07_verdict hW hfind hev ht.1 (Nat.zero_le _) hrun)
 
-/-- in (`Props/C07Inline.lean`). -/
-theorem spec_in (hd : defaultParserOK G = true) (hS : inlineNoastSafe G = true)
+/-- in (`Props/C07Inline.lean`), for any kit (`inline_noast_world` + the theorems over `WorldNS`). -/
+theorem spec_in (K : NKit) (hd : defaultParserOK G = true) (hS : inlineNoastSafeK K G = true)
     (hinl : o.inline = true) (hast : o.ast = false) (hcfg : cfg.ast = false)
     (hfind : (compileAll o G).find n = some cr) : ParserSpec o G G cfg inp n cr := by
   obtain ⟨hwf, _, _, _⟩ := defaultParserOK_iff hd
-  have hW := inline_noast_world (Kall G) G o cfg inp hS hinl hast hcfg hinp
+  have hW := inline_noast_world K G o cfg inp hS hinl hast hcfg hinp
   obtain ⟨_, b, _, _, hb, _⟩ := hW.rules n cr hfind
   obtain ⟨b0, hb0⟩ := body_of_expandG_body hb
   obtain ⟨res, evs, hev⟩ := Eval_total (ρ := cfg.rho) hwf inp n b0 hb0 0 (Nat.zero_le _)
   refine ⟨res, evs, hev,
-    C07_inline_runs (Kall G) G o cfg inp hS hinl hast hcfg hinp hfind hev rfl (Nat.zero_le _), ?_⟩
+    C07_inline_runs K G o cfg inp hS hinl hast hcfg hinp hfind hev rfl (Nat.zero_le _), ?_⟩
   intro t out t' ht hrun
   rw [hast]
   exact runSpec_of_verdict
-    (C07_inline_verdict G o cfg inp hS hinl hast hcfg hinp hfind hev ht.1 (Nat.zero_le _) hrun)
+    (C07_switch_verdict_world hW hfind (Eval_expandG hev) ht.1 (Nat.zero_le _) hrun)
 
-/-- sn (`Props/C07Switch.lean`). -/
-theorem spec_sn (hd : defaultParserOK G = true) (hS : noastSwitchSafe G G' = true)
+/-- sn (`Props/C07Switch.lean`), for any kit (`noast_switch_world`, `noast_switch_outcome` + the
+    theorems over `WorldNS`: the proof of `C07_switch_verdict`). -/
+theorem spec_sn (K : NKit) (hd : defaultParserOK G = true) (hS : noastSwitchSafeK K G G' = true)
     (hinl : o.inline = false) (hast : o.ast = false) (hcfg : cfg.ast = false)
     (hfind : (compileAll o G').find n = some cr) : ParserSpec o G G' cfg inp n cr := by
   obtain ⟨hwf, _, _, _⟩ := defaultParserOK_iff hd
-  obtain ⟨res, evs, hev, hex, hall⟩ :=
-    C07_switch_verdict G G' o cfg inp hwf hS hinl hast hcfg hinp hfind (p := 0) (Nat.zero_le _)
-  refine ⟨res, evs, hev, hex St.init rfl, ?_⟩
+  have hW := noast_switch_world K G G' o cfg inp hS hinl hast hcfg hinp
+  obtain ⟨res, evs, evs', hev, hev'⟩ := noast_switch_outcome hwf hS hW hfind (p := 0) (Nat.zero_le _)
+  refine ⟨res, evs, hev, C07_switch_runs hW hfind hev' rfl (Nat.zero_le _), ?_⟩
   intro t out t' ht hrun
-  rw [hast]; exact runSpec_of_verdict (hall t out t' ht.1 hrun)
+  rw [hast]
+  exact runSpec_of_verdict (C07_switch_verdict_world hW hfind hev' ht.1 (Nat.zero_le _) hrun)
 
-/-- isn (`Props/C07Inline.lean`). -/
-theorem spec_isn (hd : defaultParserOK G = true) (hS : inlineNoastSwitchSafe G G' = true)
+/-- isn (`Props/C07Inline.lean`), for any kit (`inline_noast_switch_world`,
+    `inline_noast_switch_outcome` + the theorems over `WorldNS`: the proof of
+    `C07_inline_switch_verdict`). -/
+theorem spec_isn (K : NKit) (hd : defaultParserOK G = true) (hS : inlineNoastSwitchSafeK K G G' = true)
     (hinl : o.inline = true) (hast : o.ast = false) (hcfg : cfg.ast = false)
     (hfind : (compileAll o G').find n = some cr) : ParserSpec o G G' cfg inp n cr := by
   obtain ⟨hwf, _, _, _⟩ := defaultParserOK_iff hd
-  obtain ⟨res, evs, hev, hex, hall⟩ :=
-    C07_inline_switch_verdict G G' o cfg inp hwf hS hinl hast hcfg hinp hfind (p := 0) (Nat.zero_le _)
-  refine ⟨res, evs, hev, hex St.init rfl, ?_⟩
+  have hW := inline_noast_switch_world K G G' o cfg inp hS hinl hast hcfg hinp
+  obtain ⟨res, evs, evs', hev, _, hevX⟩ :=
+    inline_noast_switch_outcome hwf hS hW hfind (p := 0) (Nat.zero_le _)
+  refine ⟨res, evs, hev, C07_switch_runs hW hfind hevX rfl (Nat.zero_le _), ?_⟩
   intro t out t' ht hrun
-  rw [hast]; exact runSpec_of_verdict (hall t out t' ht.1 hrun)
+  rw [hast]
+  exact runSpec_of_verdict (C07_switch_verdict_world hW hfind hevX ht.1 (Nat.zero_le _) hrun)
 
 end cases
 
@@ -252,16 +320,20 @@ theorem option_parser_spec (o : Opts) (G G' : Grammar) (cfg : Cfg) (inp : List S
   | false =>
     obtain rfl : G' = G := hG' rfl
     cases i <;> cases a <;> simp only [optionSetOK] at hS
-    · exact spec_n _ _ cfg inp hinp hd hS rfl rfl rfl hcfg hfind
+    · exact spec_n _ _ cfg inp hinp (Kacts _) hd hS rfl rfl rfl hcfg hfind
     · exact spec_dflt _ _ cfg inp hinp hd rfl rfl rfl hcfg hfind
-    · exact spec_in _ _ cfg inp hinp hd hS rfl rfl hcfg hfind
-    · exact spec_i _ _ cfg inp hinp hd hS rfl rfl rfl hcfg hfind
+    · exact spec_in _ _ cfg inp hinp (Kacts _) hd hS rfl rfl hcfg hfind
+    · rw [GrammarOKIfast_eq] at hS
+      exact spec_i _ _ cfg inp hinp hd hS rfl rfl rfl hcfg hfind
   | true =>
     cases i <;> cases a <;> simp only [optionSetOK] at hS
-    · exact spec_sn G G' _ cfg inp hinp hd hS rfl rfl hcfg hfind
-    · exact spec_s G G' _ cfg inp hinp hd hS rfl rfl hcfg hfind
-    · exact spec_isn G G' _ cfg inp hinp hd hS rfl rfl hcfg hfind
-    · exact spec_is G G' _ cfg inp hinp hd hS rfl rfl hcfg hfind
+    · rw [noastSwitchSafeA, noastSwitchSafeKfast_eq] at hS
+      exact spec_sn G G' _ cfg inp hinp (Kacts G') hd hS rfl rfl hcfg hfind
+    · rw [switchSafeFast_eq] at hS
+      exact spec_s G G' _ cfg inp hinp hd hS rfl rfl hcfg hfind
+    · exact spec_isn G G' _ cfg inp hinp (Kacts G') hd hS rfl rfl hcfg hfind
+    · rw [inlineSwitchSafeFast_eq] at hS
+      exact spec_is G G' _ cfg inp hinp hd hS rfl rfl hcfg hfind
 
 /-! ### Every option set against the default parser -/
 
@@ -425,6 +497,86 @@ example (o : Opts) (cfg cfg' : Cfg) (inp : List Sym)
   all_options_same_verdict_fresh o G (emitG o) cfg cfg' inp (applies o).1 (applies o).2 hcfg hcfg' hrho
     hinp hfind hfind' hrun hrun'
 
+/-! #### A grammar with state-change statements
+
+  `Gstmt` is `G` with three state-change statements (`.stmt`; under `-noast` each appends its code to
+  the machine's trace, like an action, but it is not an event of the semantics):
+
+      S       <- (A 'b' / B !{n++} 'y' / 'd' / [g-k] 'z') !{m = 0} C C? !.
+      A       <- 'a' !{k--} <'x'> Action0
+      B       <- [b-c]
+      C       <- 'c'
+      Action0 <- { A0 }
+
+  one in the body of `S`, one inside an alternative that `-switch` turns into a case, one in the
+  rule `A` that `-inline` compiles in place.  With the kit `Kall` (every trace entry compared) the
+  four `-noast` side conditions reject it; with `Kacts` (`theoremApplies`) all eight option sets are
+  covered. -/
+
+def Gstmt : Grammar := ⟨[
+  ⟨"S", 0, .ipush (.seq [
+      .alt [.seq [.name "A", .chr 98], .seq [.name "B", .stmt "n++", .chr 121], .chr 100,
+        .seq [.rng 103 107, .chr 122]],
+      .stmt "m = 0", .name "C", .query (.name "C"), .peekNot .dot]) "S"⟩,
+  ⟨"A", 1, .ipush (.seq [.chr 97, .stmt "k--", .push (.chr 120) "PegText", .name "Action0"]) "A"⟩,
+  ⟨"B", 2, .ipush (.rng 98 99) "B"⟩,
+  ⟨"C", 3, .ipush (.chr 99) "C"⟩,
+  ⟨"Action0", 4, .ipush (.act "A0") "Action0"⟩]⟩
+
+def GstmtSw : Grammar := (optimise Gstmt).toOption.getD Gstmt
+
+def emitGstmt (o : Opts) : Grammar := if o.switch then GstmtSw else Gstmt
+
+/-- **Non-vacuity with state-change statements**: `theoremApplies` holds for `Gstmt` under all eight
+    option sets — in particular the four with `-noast` — with the output of the modelled optimiser
+    as emission grammar of the option sets with `-switch`. -/
+theorem applies_all_stmt : allOpts.all (fun o => theoremApplies o Gstmt (emitGstmt o)) = true := by
+  decide
+
+theorem applies_stmt (o : Opts) :
+    theoremApplies o Gstmt (emitGstmt o) = true ∧ (o.switch = false → emitGstmt o = Gstmt) :=
+  ⟨List.all_eq_true.mp applies_all_stmt o (mem_allOpts o), fun h => by simp [emitGstmt, h]⟩
+
+/-- The optimiser did rewrite the choice of `S` (the statement sits inside a case), and the kit is
+    what it should be: the one action code is kept, the statement codes are not. -/
+example : (GstmtSw.rules.any (fun r => SwitchTests.hasSwitch r.body),
+    actionCodes Gstmt, ["A0", "n++", "m = 0", "k--"].map (Kacts GstmtSw).keep) =
+    (true, ["A0"], [true, false, false, false]) := by decide
+
+/-- The `Kall` instances of the four `-noast` side conditions (n, in, sn, isn) — what
+    `theoremApplies` used before — all reject `Gstmt`. -/
+example : [GrammarOKN (Kall Gstmt) Gstmt, inlineNoastSafe Gstmt, noastSwitchSafe Gstmt GstmtSw,
+    inlineNoastSwitchSafe Gstmt GstmtSw] = [false, false, false, false] := by decide
+
+/-- A statement whose code coincides with the code of an action is still rejected under `-noast`
+    (the two trace entries could not be told apart); the four AST option sets pass. -/
+def Gclash : Grammar := ⟨[
+  ⟨"S", 0, .ipush (.seq [.chr 97, .stmt "A0", .name "Action0", .peekNot .dot]) "S"⟩,
+  ⟨"Action0", 1, .ipush (.act "A0") "Action0"⟩]⟩
+
+example : allOpts.map (fun o => theoremApplies o Gclash ((optimise Gclash).toOption.getD Gclash)) =
+    [true, true, true, true, false, false, false, false] := by decide
+
+/-- The instance of the summary theorem for `Gstmt`: the default parser and the parser of ANY option
+    set agree on any input of valid runes, for every rule that has a function in both. -/
+example (o : Opts) (cfg cfg' : Cfg) (inp : List Sym)
+    (hcfg : cfg.ast = true) (hcfg' : cfg'.ast = o.ast) (hrho : cfg.rho = cfg'.rho)
+    (hinp : ∀ c ∈ inp, c ≠ END)
+    {n cr cr'} (hfind : (compileAll dfltOpts Gstmt).find n = some cr)
+    (hfind' : (compileAll o (emitGstmt o)).find n = some cr')
+    {out out' s' t'}
+    (hrun : Exec (compileAll dfltOpts Gstmt) cfg inp cr 0 St.init Frame.empty (out, s'))
+    (hrun' : Exec (compileAll o (emitGstmt o)) cfg' inp cr' 0 St.init Frame.empty (out', t')) :
+    out = out' ∧ out ≠ .panic ∧ out' ≠ .panic ∧ s'.pos = t'.pos ∧
+      (o.ast = true → out = .ret true → s'.tree.take s'.ti = t'.tree.take t'.ti) :=
+  all_options_same_verdict_fresh o Gstmt (emitGstmt o) cfg cfg' inp (applies_stmt o).1 (applies_stmt o).2
+    hcfg hcfg' hrho hinp hfind hfind' hrun hrun'
+
+/-- `S` and `C` have a function in every one of the eight programs for `Gstmt`. -/
+example : allOpts.all (fun o => ["S", "C"].all (fun n =>
+    ((compileAll o (emitGstmt o)).find n).isSome && ((compileAll dfltOpts Gstmt).find n).isSome)) = true := by
+  decide
+
 end AllOptionsExample
 end PegVerif
 
@@ -433,5 +585,10 @@ end PegVerif
 #print axioms PegVerif.all_options_same_verdict_fresh
 #print axioms PegVerif.all_options_run_exists
 #print axioms PegVerif.mem_allOpts
+#print axioms PegVerif.defaultParserOK_eq
+#print axioms PegVerif.optionSetOK_eq
+#print axioms PegVerif.optionSetOK_of_Kall
 #print axioms PegVerif.AllOptionsExample.applies_all
 #print axioms PegVerif.AllOptionsExample.applies
+#print axioms PegVerif.AllOptionsExample.applies_all_stmt
+#print axioms PegVerif.AllOptionsExample.applies_stmt
